@@ -60,6 +60,8 @@ def strat_history(draw, tier):
             s["stop"] = draw(idx)
             s["step"] = draw(st.sampled_from([None, None, None, 1, 2, -1,
                                               0]))
+        if kind in ("read", "write") and draw(st.integers(0, 9)) == 0:
+            s["fail"] = True           # the machine does not answer
         steps.append(s)
     return {"size": size, "buffer": draw(st.sampled_from([16, 64, 256])),
             "chip": draw(st.sampled_from([[0, 0], [1, 1]])),
@@ -138,6 +140,9 @@ def check_history(case):
             dead = v.dead()
             raised = None
             result = None
+            failing = bool(step.get("fail"))
+            if failing:
+                chip.silent = True
             with warnings.catch_warnings(record=True) as caught:
                 warnings.simplefilter("always")
                 try:
@@ -170,6 +175,22 @@ def check_history(case):
                             v.root.obj.free()
                 except (OSError, ValueError) as e:
                     raised = e
+            chip.silent = False
+            from rig.machine_control.scp_connection import SCPError
+            if failing and isinstance(raised, SCPError):
+                # nothing was transferred: the position must not have moved
+                # and nothing may have changed
+                for xy, c in m.chips.items():
+                    require(not c.mem.diff(snaps[xy]), "a transfer that "
+                            "failed changed memory", det)
+                if not v.dead():
+                    with sut("tell"):
+                        t = v.obj.tell()
+                    require(t == v.pos, "the position moved although the "
+                            "transfer failed and no byte was transferred",
+                            dict(det, tell=t))
+                classes.add("failed-transfer")
+                continue
             # ---- confinement (always)
             for entry in m.log[log_at:]:
                 if entry["cmd"] in (2, 3) and (entry["x"], entry["y"]) == \
